@@ -11,6 +11,7 @@ VARIABLES pt              \* a decision point (Seed before one is chosen)
 Points == [rule : {"rilling"}, N : 1..MaxN, n1 : 0..MaxN, n2 : 0..MaxN, t : Tols, a : {0}]
           \cup [rule : {"sd"}, N : {0}, n1 : 0..(MaxN * MaxN), n2 : 1..(MaxN * MaxN), t : Tols, a : {0}]
           \cup [rule : {"fixed"}, N : {0}, n1 : 1..MaxN, n2 : 1..MaxN, t : {<<1, 1>>}, a : {0}]
+          \cup [rule : {"energy"}, N : 0..2, n1 : 1..(MaxN * MaxN), n2 : 1..MaxN, t : {<<1, 1>>}, a : {0}]   \* N = K, n1 = A, n2 = B
 Valid(x) == x.rule = "rilling" => (x.n2 <= x.n1 /\ x.n1 <= x.N)       \* sd2 > sd1: samples above sd2 are above sd1
 Seed == [rule |-> "seed", N |-> 0, n1 |-> 0, n2 |-> 0, t |-> <<1, 1>>, a |-> 0]
 Init == pt = Seed
@@ -18,6 +19,7 @@ Next == pt = Seed /\ pt' \in {x \in Points : Valid(x)}
 Stops(x) == CASE x.rule = "rilling" -> RillingStops(x.N, x.n1, x.n2, x.t[1], x.t[2])
               [] x.rule = "sd" -> SdStops(x.n1, x.n2, x.t[1], x.t[2])
               [] x.rule = "fixed" -> FixedStops(x.n1, x.n2)
+              [] x.rule = "energy" -> EnergyStops(x.n1, x.n2, x.N)
 \* one large excursion (a sample above sd2) always forces another iteration
 RillingAnyLargeContinues == (pt.rule # "seed" /\ pt.rule = "rilling" /\ pt.n2 > 0) => ~Stops(pt)
 \* fewer samples above sd1 never turns a stop into a continue
@@ -30,6 +32,15 @@ SdStrict == (pt.rule # "seed" /\ pt.rule = "sd" /\ pt.n1 * pt.t[2] = pt.t[1] * p
 SdMonotone == (pt.rule # "seed" /\ pt.rule = "sd" /\ Stops(pt) /\ pt.n1 > 0) => Stops([pt EXCEPT !.n1 = pt.n1 - 1])
 \* fixed: exactly one iteration count in 1..max fires
 FixedOnce == (pt.rule # "seed" /\ pt.rule = "fixed") => (Stops(pt) <=> pt.n1 = pt.n2)
+\* energy: strict comparison (a ratio of exactly 10^K continues, one more unit of energy stops); more energy in the first
+\* signal never un-stops, more in the second never starts a stop; a larger threshold never stops more often
+EnergyBoundary == (pt.rule # "seed" /\ pt.rule = "energy" /\ pt.n1 = pt.n2 * 10 ^ pt.N) =>
+                      (~Stops(pt) /\ Stops([pt EXCEPT !.n1 = pt.n1 + 1]))
+EnergyMonotone == (pt.rule # "seed" /\ pt.rule = "energy" /\ Stops(pt)) =>
+                      /\ Stops([pt EXCEPT !.n1 = pt.n1 + 1])
+                      /\ (pt.n2 > 1 => Stops([pt EXCEPT !.n2 = pt.n2 - 1]))
+                      /\ (pt.N > 0 => Stops([pt EXCEPT !.N = pt.N - 1]))
+W_EnergyBoundaryReached == ~(pt.rule # "seed" /\ pt.rule = "energy" /\ pt.N > 0 /\ pt.n1 = pt.n2 * 10 ^ pt.N)
 W_RillingBoundaryReached == ~(pt.rule # "seed" /\ pt.rule = "rilling" /\ pt.n2 = 0 /\ pt.n1 > 0 /\ pt.n1 * pt.t[2] = pt.t[1] * pt.N)
 W_SdEqualReached == ~(pt.rule # "seed" /\ pt.rule = "sd" /\ pt.n1 * pt.t[2] = pt.t[1] * pt.n2)
 Tols3 == {<<1, 20>>, <<1, 10>>, <<1, 4>>, <<1, 2>>}
